@@ -289,6 +289,16 @@ def xseries_guards(ctx, rule="C12.xseries-guards"):
         cmps = [x for x in ast.walk(raw) if isinstance(x, ast.Compare) and isinstance(x.ops[0], (ast.NotEq, ast.Eq))]
         return bool(cmps) and "args" in derives(c.node, raw, n.id).consts
     g = guard(c, p_fixed, exc="CircuitError", conj=True)
+    if g is not None:
+        # every pair of corresponding arguments is compared: the loop over the argument pairs is left only by the raise
+        lp = getattr(g.stmt, "parent", None)
+        while lp is not None and not isinstance(lp, (ast.For, ast.While, ast.FunctionDef)):
+            lp = getattr(lp, "parent", None)
+        early = [x for x in ast.walk(lp) if isinstance(x, (ast.Break, ast.Return))] if isinstance(lp, (ast.For, ast.While)) else []
+        # (a break / return that belongs to a nested loop of its own does not leave this one - there is none today)
+        ctx.ob(rule, c.site, not early, "" if not early else "the loop that compares the hard-coded layout parameters is left early "
+               f"(`{type(early[0]).__name__.lower()}` at line {early[0].lineno}): the remaining arguments of the gate are never compared",
+               role="fixed-params-all-pairs", line=(early[0].lineno if early else c.node.lineno))
     ctx.ob(rule, c.site, g is not None, "" if g else "a mismatch of hard-coded layout parameters no longer raises CircuitError",
            role="guard:fixed-params", line=c.node.lineno)
     nm = None
@@ -302,6 +312,33 @@ def xseries_guards(ctx, rule="C12.xseries-guards"):
     ctx.ob(rule, c.site, ok, "" if ok else "layout matching no longer compares operation name and modes", role="node-match",
            line=c.node.lineno)
     ctx.floor(rule, 19)
+
+
+def fresh_decompose(ctx, rule="C12.validation"):
+    ctx.explain(f"{rule}: (fresh list) Compiler.decompose and every override return a list built in the call, never the sequence "
+                "they were handed: compile() of several compilers edits that list in place (insert / extend / pop), and the "
+                "sequence handed in is the circuit of the user's program.")
+    n = 0
+    for cls in ctx.tree.all_classes():
+        if not cls.module.rel.startswith("compilers/"):
+            continue
+        f = cls.methods.get("decompose")
+        if f is None or len(f.pos_params) < 2:
+            continue
+        n += 1
+        seqp = f.pos_params[1]
+        bad = None
+        rd = rd_of(f.node)
+        for r, v in return_values(f.node):
+            v2 = resolve_name(f.node, r.value)
+            if isinstance(v2, ast.Name) and v2.id == seqp:
+                ids = rd.cfg.find(r)
+                if ids and all(d.kind == "param" for d in rd.reaching(seqp, ids[0])):
+                    bad = r
+        ctx.ob(rule, f.site, bad is None, "" if bad is None else f"`{ast.unparse(bad)[:40]}` hands back the caller's own sequence: "
+               "in-place edits of the compiled sequence change the source program", role="decompose-returns-new-list",
+               line=(bad.lineno if bad else f.node.lineno))
+    ctx.require(n >= 1, "no Compiler.decompose found")
 
 
 def op_clone(ctx, rule="C12.op-clone"):
@@ -355,5 +392,6 @@ def merge_params(ctx, rule="C12.merge-params"):
 def rules(ctx):
     merge_params(ctx)
     validation(ctx)
+    fresh_decompose(ctx)
     xseries_guards(ctx)
     op_clone(ctx)
